@@ -89,7 +89,7 @@ class Machine(object):
         self.w, self.h = d["w"], d["h"]
         self.root = tuple(d["root"])
         self.status = dict((tuple(xy), st) for xy, st in d["eth"])     # Ethernet chip -> status
-        self.ident = dict((tuple(xy), i + 1) for i, (xy, st) in enumerate(d["eth"]))
+        self.ident = dict((tuple(xy), d.get("id_base", 0) + i + 1) for i, (xy, st) in enumerate(d["eth"]))
         self.dead = set(tuple(xy) for xy in d["dead"]) | set(xy for xy, st in self.status.items() if st == "dead")
 
     def host_of(self, chip):
@@ -205,7 +205,13 @@ def materialise(cls, method, name, v):
     """Python object for a value of the case.  Integers, None and booleans are themselves, except where the
     parameter is an enumeration given by name in normal use; a token is an object fit for that parameter."""
     if isinstance(v, dict) and "seq" in v:
-        return list(v["seq"])
+        # a collection of boards, in every form Python offers -- including one-shot iterators
+        q = list(v["seq"])
+        kind = v.get("kind", "list")
+        return {"list": lambda: q, "tuple": lambda: tuple(q), "set": lambda: set(q),
+                "generator": lambda: (b for b in q), "iter": lambda: iter(q),
+                "reversed": lambda: reversed(q[::-1]), "map": lambda: map(int, q),
+                "dict-keys": lambda: dict.fromkeys(q).keys()}[kind]()
     if isinstance(v, dict):
         k = v["t"]
         if name == "data":
@@ -303,6 +309,13 @@ def discover(case, c):
             c.discover_connections()
         except Exception as e:
             err = type(e).__name__
+        if case.get("discover2") and err is None:
+            # the machine changes (e.g. boards are removed: it shrinks) and is discovered again
+            MODE["machine"] = Machine(case["discover2"])
+            try:
+                c.discover_connections()
+            except Exception as e:
+                err = "second run: " + type(e).__name__
     finally:
         MODE["machine"] = None
     after = dict(width=c._width, height=c._height,
